@@ -160,6 +160,10 @@ def _replay_record(rec):
         exp = [eX[i - 1] for i in f["idx"]]
         if len(X2) != len(exp) or any(not np.array_equal(a, b) for a, b in zip(X2, exp)):
             bad.append(("C13_Filter", {"g": f["g"], "kept": [a.tolist() for a in X2], "expected_idx": f["idx"]}))
+        # the pairs an operator built from the filtered sequences would carry (C18: each has s.y > 0)
+        X2l, G2l = list(X2), list(G2)
+        if any(not float((X2l[j + 1] - X2l[j]) @ (G2l[j + 1] - G2l[j])) > 0 for j in range(len(X2l) - 1)):
+            bad.append(("C18_FilteredPairsPositive", {"g": f["g"], "kept": [a.tolist() for a in X2l]}))
     return bad
 
 
